@@ -30,6 +30,7 @@ func isJ2K(ts string) bool {
 type genOpt struct {
 	maxDim     int
 	allowOdd16 bool // BitsAllocated=16 with BitsStored<=8 (the known C10 finding class)
+	forceOdd16 bool // always that class
 	signed     bool
 }
 
@@ -53,11 +54,17 @@ func genInfo(r *spec.Rng, ts string, o genOpt) spec.Info {
 	switch ts {
 	case "50":
 		in.BA, in.BS = 8, 8
+		if o.allowOdd16 && r.Chance(1, 3) {
+			in.BA, in.BS = 16, r.Range(2, 8)
+		}
 	case "51":
 		if r.Bool() {
 			in.BA, in.BS = 8, 8
 		} else {
 			in.BA, in.BS = 16, 12
+		}
+		if o.allowOdd16 && r.Chance(1, 4) {
+			in.BA, in.BS = 16, r.Range(2, 8)
 		}
 	case "rle":
 		if r.Bool() {
@@ -95,6 +102,12 @@ func genInfo(r *spec.Rng, ts string, o genOpt) spec.Info {
 		if o.signed && isJ2K(ts) && r.Chance(1, 4) {
 			in.PR = 1
 			in.BS = in.BA // unambiguous container (DESIGN §5 C10)
+		}
+	}
+	if o.forceOdd16 {
+		in.BA, in.BS, in.PR = 16, r.Range(2, 8), 0
+		if ts == "50" || ts == "51" {
+			in.BS = 8
 		}
 	}
 	in.HB = in.BS - 1
